@@ -151,6 +151,29 @@ def search(rep, rel, q, pi, hi):
             stops_at_first_level.append(ex)
         rep.ob("O12.2", "R16", fi, in_mcs and after_level, f"{type(ex).__name__} under {flat}",
                "the search stops early only in maximum mode and only once a complete level has produced a result (or sizes fell below the best)", node=ex)
+    # every subset of a level is handed to the matcher: a subset skipped before the matcher runs is sound only for a reason that holds for every
+    # host (here: none is recognised except connectivity); a skip by a remembered *fingerprint* of earlier failures needs a complete invariant
+    for ex in [n for n in walk_local(cl) if isinstance(n, (ast.Continue, ast.Break)) and not any(n is x for x in ast.walk(il))]:
+        if isinstance(ex, ast.Continue) and ex.lineno > il.lineno:
+            continue   # after the matcher loop of this subset: nothing of this subset is skipped
+        gs = [t for t, s_ in guards_of(pm, ex, cl) if s_]
+        if isinstance(ex, ast.Continue) and gs and all(any(isinstance(c_, ast.Call) and call_name(c_) in ("is_connected", "is_weakly_connected") for c_ in ast.walk(g)) for g in gs):
+            continue
+        okx, why = None, "not understood"
+        cdefs = local_defs(fi.node)
+        for g in gs:
+            mmx = pmatch("$k in $s", g)
+            if mmx is not None:
+                from ..rules import provenance as PVx
+                roots = PVx.all_roots(cdefs, ast.Name(id=mmx["k"], ctx=ast.Load()))
+                exact = any(isinstance(r, ast.Call) and call_name(r) in ("frozenset", "tuple") and r.args and norm(r.args[0]) == norm(cl.target) for r in roots) or \
+                    any(isinstance(r, ast.Name) and r.id == norm(cl.target) for r in roots)
+                if exact:
+                    okx, why = True, "the very same node set"
+                else:
+                    okx, why = False, (f"`{mmx['k']}` is a fingerprint of the sub-pattern ({', '.join(norm(r)[:40] for r in roots)}), not the sub-pattern: two non-isomorphic "
+                                       "sub-patterns with the same fingerprint exist, and the second one is never tried against the host")
+        rep.ob("O12.2", "R16", fi, okx, f"{type(ex).__name__} under {[_flat(g) for g in gs]}", "every subset of a level reaches the matcher unless it is literally the same node set: " + why, node=ex)
     rep.ob("O12.1", "R2", fi, call_name(il.iter) == "subgraph_isomorphisms_iter", il.iter,
            "common subgraphs are *induced*: bonds between mapped atoms must be present (with equal order) on both sides", node=il)
     def registered(coll, key):
@@ -377,6 +400,34 @@ def orientation(rep):
     rep.ob("O12.3", "R17", fc, ok, "pattern, host, pattern_is_G1 = self._prepare_orientation(G1_use, G2_use)", "the orientation triple is unpacked in order, for (G1, G2)")
     rep.ob("O12.3", "R17", fc, b is not None, "self._last_pattern_is_G1 = pattern_is_G1", "the orientation flag of this search is remembered")
     rep.ob("O12.3", "R17", fc, b is not None, "self._search_subgraphs(pattern, host, mcs=mcs)", "the search receives (pattern, host) in this order and the maximum-mode flag")
+    # every mapping that find_common_subgraph stores comes out of the verified enumeration (or the documented mcs_mol combination); a mapping
+    # from another producer (a fast path, a cache) bypasses the induced-subgraph test of the enumeration
+    from ..rules import provenance as PV
+    stores = [n for n in walk_local(fc.node) if isinstance(n, ast.Assign) and any(norm(t) == "self._mappings" for t in n.targets)]
+    rep.need("R17", len(stores), 2, "stores to self._mappings in find_common_subgraph")
+    KNOWN = {"_search_subgraphs", "_find_mcs_mol"}
+    n_known = 0
+    for st in stores:
+        for r in PV.all_roots(d, st.value):
+            if isinstance(r, (ast.List, ast.Constant)) or (isinstance(r, ast.Call) and call_name(r) in KNOWN):
+                n_known += 1
+                continue
+            ok, why = None, f"`{norm(r)[:60]}` is not one of the verified producers"
+            if isinstance(r, ast.Call) and isinstance(r.func, ast.Attribute) and isinstance(r.func.value, ast.Name) and r.func.value.id == "self":
+                prod = rep.repo.maybe_func(MM, f"MCSMatcher.{r.func.attr}")
+                if prod is not None:
+                    # a hand-written validator: bond presence has to be tested in both directions (induced), not only pattern bonds in the host
+                    loops_over = {norm(l.iter.func.value) for l in walk_local(prod.node) if isinstance(l, ast.For) and isinstance(l.iter, ast.Call)
+                                  and isinstance(l.iter.func, ast.Attribute) and l.iter.func.attr == "edges"}
+                    tested = {norm(c.func.value) for c in walk_local(prod.node) if isinstance(c, ast.Call) and isinstance(c.func, ast.Attribute) and c.func.attr == "has_edge"}
+                    counts = [c for c in walk_local(prod.node) if isinstance(c, ast.Call) and call_name(c) in ("number_of_edges", "subgraph", "is_isomorphic", "subgraph_is_isomorphic")]
+                    if loops_over and tested and not (tested & loops_over) and not counts and not (tested <= loops_over and loops_over <= tested):
+                        one_way = loops_over - tested
+                        if one_way and not counts:
+                            ok, why = False, (f"`{prod.qual}` tests that every bond of {sorted(loops_over)} exists in {sorted(tested)}, never the other way round: "
+                                              f"an extra bond of {sorted(tested)} between mapped atoms is accepted (monomorphism, not a common induced subgraph)")
+            rep.ob("O12.1", "R17", fc, ok, r, "stored mappings come from the verified enumeration: " + why, node=st)
+    rep.ob("O12.1", "R17", fc, n_known >= 2, f"{len(stores)} stores, {n_known} producers", "find_common_subgraph stores the result of the verified enumeration (and the mcs_mol combination)")
     # get_mappings parity: a decision function of (direction, orientation flag): tabulate it with the two conversions kept symbolic
     gmf = rep.f(MM, "MCSMatcher.get_mappings")
     dirp = gmf.params[1]
